@@ -317,6 +317,7 @@ func (f *Frame) val(v ssa.Value) Term {
 	if _, ok := f.locs[v]; ok {
 		// address of a field/element used as a first-class value
 		t := c.fresh("addr", SInt)
+		c.assume(app(SBool, "<", intLit(0), t), false)
 		f.vals[v] = t
 		return t
 	}
@@ -930,6 +931,12 @@ func (f *Frame) phiOver(phi *ssa.Phi, es []inEdge) Term {
 func (f *Frame) execBlock(b *ssa.BasicBlock, st *State, reach Term) {
 	c := f.c
 	f.curBlock = b
+	for _, in := range b.Instrs {
+		if _, ok := in.(*ssa.Phi); !ok {
+			break
+		}
+		f.markEscapes(in)
+	}
 	start := 0
 	if ord, isHdr := f.headers[b]; isHdr {
 		start = f.enterLoop(b, ord, st, reach)
@@ -950,8 +957,28 @@ func (f *Frame) execBlock(b *ssa.BasicBlock, st *State, reach Term) {
 	}
 	for i := start; i < len(b.Instrs); i++ {
 		f.curIdx = i
+		f.markEscapes(b.Instrs[i])
 		f.execInstr(b.Instrs[i], st, reach)
+		switch a := b.Instrs[i].(type) {
+		case *ssa.Alloc:
+			if _, inLoop := f.inAnyLoop(b); !inLoop {
+				c.unescaped[fmt.Sprintf("f%d:%s", f.id, a.Name())] = f.vals[a]
+			}
+		case *ssa.MakeMap:
+			if _, inLoop := f.inAnyLoop(b); !inLoop {
+				c.unescaped[fmt.Sprintf("f%d:%s", f.id, a.Name())] = f.vals[a]
+			}
+		}
 	}
+}
+
+func (f *Frame) inAnyLoop(b *ssa.BasicBlock) (*ssa.BasicBlock, bool) {
+	for h, body := range f.loopBody {
+		if body[b] {
+			return h, true
+		}
+	}
+	return nil, false
 }
 
 // mergePhiMeta propagates closure knowledge through phis whose inputs agree.
@@ -1076,14 +1103,65 @@ func (c *Ctx) valueInv(v Term, t types.Type, st *State) Term {
 			return c.ile(c.intConst(0, c.I()), app(c.I(), "str_len", v))
 		}
 	case *types.Pointer, *types.Map, *types.Chan:
-		return tAnd(app(SBool, "<=", intLit(0), v), app(SBool, "<=", v, st.alloc))
+		return tAnd(app(SBool, "<=", intLit(0), v), app(SBool, "<=", v, st.alloc), c.notUnescaped(v))
 	case *types.Slice:
 		z := c.intConst(0, c.I())
 		return tAnd(c.ile(z, app(c.I(), "sl_len", v)), c.ile(app(c.I(), "sl_len", v), app(c.I(), "sl_cap", v)), c.ile(z, app(c.I(), "sl_off", v)),
 			app(SBool, "<=", intLit(0), app(SInt, "sl_arr", v)), app(SBool, "<=", app(SInt, "sl_arr", v), st.alloc),
-			tImp(tEq(app(SInt, "sl_arr", v), intLit(0)), tEq(app(c.I(), "sl_cap", v), z)))
+			tImp(tEq(app(SInt, "sl_arr", v), intLit(0)), tEq(app(c.I(), "sl_cap", v), z)), c.notUnescaped(app(SInt, "sl_arr", v)))
 	}
 	return tTrue
+}
+
+// notUnescaped: a reference obtained from the heap, a call or a havoc cannot
+// be an object this function allocated and has not yet stored or passed anywhere.
+func (c *Ctx) notUnescaped(v Term) Term {
+	var cs []Term
+	for _, k := range sortedKeys(c.unescaped) {
+		cs = append(cs, tNot(tEq(v, c.unescaped[k])))
+	}
+	return tAnd(cs...)
+}
+
+// markEscapes removes from the unescaped set every fresh object whose
+// reference is used by `in` other than as the address of a load/store.
+func (f *Frame) markEscapes(in ssa.Instruction) {
+	c := f.c
+	if len(c.unescaped) == 0 {
+		return
+	}
+	if _, ok := in.(*ssa.DebugRef); ok {
+		return
+	}
+	var buf [10]*ssa.Value
+	for _, op := range in.Operands(buf[:0]) {
+		if op == nil || *op == nil {
+			continue
+		}
+		v := *op
+		root := v
+		switch v.(type) {
+		case *ssa.FieldAddr, *ssa.IndexAddr:
+			root, _ = rootOf(v)
+		}
+		key := fmt.Sprintf("f%d:%s", f.id, root.Name())
+		if _, ok := c.unescaped[key]; !ok {
+			continue
+		}
+		switch x := in.(type) {
+		case *ssa.Store:
+			if x.Addr == v && x.Val != v {
+				continue
+			}
+		case *ssa.UnOp:
+			if x.Op == token.MUL {
+				continue
+			}
+		case *ssa.FieldAddr, *ssa.IndexAddr:
+			continue
+		}
+		delete(c.unescaped, key)
+	}
 }
 
 // backEdge emits the invariant-preservation obligations for edge p -> h.
